@@ -57,8 +57,8 @@ class Obs:
         self.steps.append((ex.now, out))
 
 
-def run_world(impl, config, actions):
-    ex = Exec(impl, config)
+def run_world(impl, config, actions, world_kw=None):
+    ex = Exec(impl, config, world_kw)
     obs = Obs(ex)
     try:
         for a in actions:
@@ -209,6 +209,9 @@ def ev_class(ea, eb, i):
 
 
 PROFILE = {
+    # the same handler style is registered on both servers
+    'world_kw_st': st.fixed_dictionaries({
+        'legacy_disconnect': st.sampled_from([False, False, True, 'varargs'])}),
     'client_flavours': ['plain', 'plain', 'plain', 'plain', 'jsonp', 'gzip', 'jsonp+gzip'],
     'weights': {'open': 3, 'poll': 3, 'post': 5, 'probe_step': 4, 'ws_send': 3, 'ws_close': 1,
                 'ws_fail': 1, 'pong': 1, 'app_send': 4, 'app_disconnect': 2, 'advance': 3,
@@ -233,13 +236,15 @@ PROFILE = {
 }
 
 
-def check_history(config, actions, ctx=None):
-    a = run_world('thread', config, actions)
-    b = run_world('async', config, actions)
+def check_history(config, actions, ctx=None, world_kw=None):
+    a = run_world('thread', config, actions, world_kw)
+    b = run_world('async', config, actions, world_kw)
     try:
         compare(a, b, a['actions'])
     except Violation as v:
         v.case = {'config': config, 'actions': actions}
+        if world_kw:
+            v.case['world_kw'] = world_kw
         raise
     if ctx:
         ops = [x['op'] for x in actions]
@@ -268,7 +273,9 @@ def run_shard(ctx):
     def body(data):
         config = data.draw(cfg_st, label='config')
         nsteps = data.draw(st.integers(4, steps), label='nsteps')
-        ex = Exec('thread', config)
+        wkw = data.draw(PROFILE['world_kw_st'], label='world_kw')
+        wkw = {k: v for k, v in wkw.items() if v}
+        ex = Exec('thread', config, wkw or None)
         ex.world.pick = None
         actions = []
         try:
@@ -284,10 +291,10 @@ def run_shard(ctx):
                 actions.append(a)
         finally:
             ex.close()
-        check_history(config, actions, ctx)
+        check_history(config, actions, ctx, wkw or None)
 
     run_given(ctx, st.data(), body, max_examples=250 if quick else 4000)
 
 
 def replay(case, ctx):
-    check_history(case['config'], case['actions'])
+    check_history(case['config'], case['actions'], world_kw=case.get('world_kw'))
